@@ -129,6 +129,7 @@ def decide(term, label='', free=False):
             can_t = can_f = True
         else:
             hyp = c.base + c.axioms + c.pc
+            hyp = hyp + closure(hyp + [term])
             can_t = feasible(hyp + [term])
             can_f = feasible(hyp + [z3.Not(term)])
         if can_t and can_f:
@@ -273,12 +274,65 @@ def fresh_bool(stem):
     return z3.Bool(fresh_name(stem))
 
 
-_sqrt_memo = {}
+# ---- definitional symbols (sqrt of a term, unit-scale symbols and their roots) ------------------------------
+# A definitional symbol is named after the normal form of its defining term, so the code under verification and
+# the contract obtain the SAME symbol for the same quantity however the arithmetic was grouped.  Its axioms are
+# pulled into an obligation only when the symbol occurs in it (cone of influence).
+DEFS: dict[str, list] = {}
 
 
-def sqrt_term(x):
-    """sqrt as a fresh symbol r with r >= 0 and r*r == x (meaningful for x >= 0)."""
-    c = ctx()
+def define(name, axioms):
+    if name not in DEFS:
+        DEFS[name] = list(axioms)
+
+
+def _consts(t, acc, seen):
+    stack = [t]
+    while stack:
+        e = stack.pop()
+        i = e.get_id()
+        if i in seen:
+            continue
+        seen.add(i)
+        if z3.is_app(e):
+            if e.num_args() == 0 and e.decl().kind() == z3.Z3_OP_UNINTERPRETED:
+                acc.add(e.decl().name())
+            else:
+                stack.extend(e.children())
+        elif z3.is_quantifier(e):
+            stack.append(e.body())
+
+
+def closure(terms):
+    """Definitional axioms of every registered symbol reachable from `terms`."""
+    acc, seen, out, done = set(), set(), [], set()
+    for t in terms:
+        if isinstance(t, z3.ExprRef):
+            _consts(t, acc, seen)
+    work = True
+    while work:
+        work = False
+        for n in list(acc):
+            if n in DEFS and n not in done:
+                done.add(n)
+                for ax in DEFS[n]:
+                    out.append(ax)
+                    _consts(ax, acc, seen)
+                work = True
+    return out
+
+
+def norm_key(x):
+    import hashlib
+    try:
+        n = z3.simplify(x, som=True, sort_sums=True, mul_to_power=False)
+    except Exception:
+        n = z3.simplify(x)
+    return hashlib.sha1(n.sexpr().encode()).hexdigest()[:12]
+
+
+def sqrt_term(x, nonneg=False):
+    """sqrt(x) as the definitional symbol r with r >= 0 and (x >= 0 => r*r == x)."""
     x = tz(x)
     cv = concrete(x)
     if cv is not None and cv >= 0:
@@ -287,13 +341,9 @@ def sqrt_term(x):
         rn, rd = isqrt(n), isqrt(d)
         if rn * rn == n and rd * rd == d:
             return z3.RealVal(str(Fr(rn, rd)))
-    key = ('sqrt', x.get_id())
-    memo = c.opts.setdefault('_memo', {})
-    if key in memo:
-        return memo[key]
-    r = fresh_real('sqrt')
-    c.axioms += [r >= 0, r * r == x]
-    memo[key] = r
+    name = 'sqrt!' + norm_key(x)
+    r = z3.Real(name)
+    define(name, [r >= 0, (r * r == x) if nonneg else z3.Implies(x >= 0, r * r == x)])
     return r
 
 
